@@ -171,6 +171,8 @@ pub enum Op {
     Prefill(u8),
     /// drop this thread's handle and continue on a fresh clone of it (C24; E2 reader threads only)
     Reclone,
+    /// request node n through the tracked fn of another kind (two functions on one struct instance)
+    QK(u8, Kind),
 }
 
 impl Ex {
